@@ -46,6 +46,7 @@ type Frame struct {
 }
 
 type panicState struct {
+	stack     []string
 	val       Value
 	msg       string
 	recovered bool
@@ -479,6 +480,12 @@ func (in *Interp) stepSafe(g *Goroutine) {
 
 func (in *Interp) startPanic(g *Goroutine, ps *panicState) {
 	g.panic = ps
+	if ps.stack == nil {
+		for k := len(g.stack) - 1; k >= 0 && len(ps.stack) < 10; k-- {
+			f := g.stack[k]
+			ps.stack = append(ps.stack, f.fn.String()+" "+in.posOf(f))
+		}
+	}
 	in.unwindPanic(g)
 }
 
@@ -495,6 +502,9 @@ func (in *Interp) unwindPanic(g *Goroutine) {
 				panic(pathEnd{kind: "ok", msg: "expected panic"})
 			}
 			in.reportViolation("panic", msg, false)
+			if n := len(in.stats.Violations); n > 0 && g.panic.stack != nil {
+				in.stats.Violations[n-1].Stack = g.panic.stack
+			}
 			panic(pathEnd{kind: "violation", msg: msg})
 		}
 		if len(fr.defers) > 0 {
